@@ -347,6 +347,7 @@ def render_class(style, inv, child, dbc, contracts):
                   "    q2 = property(_get_q, doc='explicit q2 doc')\n") +
                "    def swap(this, self):\n        return ('swap', self)\n"
                "    def util(x):\n        return ('util', x)\n"
+               "    def util0():\n        return 'util0'\n"
                # a method which carries an attribute set by a foreign decorator and (in the contracted twin) a contract of its own
                + ("    @icontract.require(lambda self: True)\n" if contracts else "") + "    @tagged\n    def tg(self):\n        return 'tg'\n"
                "    def pub(self, x):\n        return ('pub', x)\n    @property\n    def p(self):\n        \"\"\"doc of p\"\"\"\n        return 7\n"
@@ -523,6 +524,8 @@ def class_script(ns, style, child):
             rec("made", lambda: r.made)
     rec("tag", lambda: (inspect.getattr_static(Root, "tg").tag, Root.tg.__name__))
     rec("util_through_class", lambda: Root.util(3))   # a plain function kept in the class body and used through the class
+    rec("util0_through_class", lambda: Root.util0())   # ... without any argument: there is no instance in the call at all
+    rec("method_without_instance", lambda: Root.pub())   # Python's own TypeError
     rec("doc_p", lambda: Root.p.__doc__)
     rec("doc_q", lambda: Root.q.__doc__)
     rec("doc_w2", lambda: Root.w2.__doc__)
@@ -651,12 +654,73 @@ def items(tier):
     return out
 
 
+OBJECTS_SRC = '''\
+import functools
+import inspect
+import icontract
+class Job:
+    def __init__(self, n=0):
+        self.n = n
+    async def __call__(self):
+        return self.n
+class Plain:
+    def __init__(self, n=0):
+        self.n = n
+class Adder:
+    def __call__(self, n=0):
+        return n + 1
+def base(n, k=1):
+    return n + k
+TARGETS = {"class_with_async_call": Job, "plain_class": Plain, "callable_instance": Adder(), "partial": functools.partial(base, k=5), "builtin": abs}
+DECOS = {"require": lambda: icontract.require(lambda: True), "ensure": lambda: icontract.ensure(lambda result: True),
+         "both": lambda: (lambda f: icontract.require(lambda: True)(icontract.ensure(lambda result: True)(f)))}
+'''
+
+
+def check_callable_objects(acc):
+    """Contracts on callables which are not functions (classes used as factories, callable instances, partials, built-ins):
+    what a call gives and whether the callable counts as a coroutine function is as for the bare callable."""
+    import inspect
+    ns = core.load_source(OBJECTS_SRC, "c14o")
+    try:
+        for tname, target in ns["TARGETS"].items():
+            def observe(fn):
+                out = {"iscoroutinefunction": inspect.iscoroutinefunction(fn)}
+                try:
+                    r = fn(3)
+                    out["call"] = (type(r).__name__, getattr(r, "n", r if isinstance(r, int) else None))
+                    if inspect.iscoroutine(r):
+                        r.close()
+                except BaseException as e:  # noqa
+                    out["call"] = ("exc", type(e).__name__)
+                return out
+            bare = observe(target)
+            for dname, make in ns["DECOS"].items():
+                try:
+                    contracted = make()(target)
+                except BaseException as e:  # noqa
+                    acc.case(("objects", tname, dname), True, 1, "decoration_failed")
+                    continue  # (a callable which can not be decorated is not made less transparent)
+                got = observe(contracted)
+                acc.case(("objects", tname, dname), True, 2, str(got))
+                if got != bare:
+                    k = next(k for k in bare if bare[k] != got.get(k))
+                    acc.violation(core.Violation(PROP, "calls_differ" if k == "call" else "metadata_" + k,
+                                                 {"family": "objects", "target": tname, "deco": dname, "kind": tname, "sig": "-", "stack": dname},
+                                                 "{} given to {}: bare {} vs contracted {}".format(tname, dname, bare, got), spec={"objects": True}, script=OBJECTS_SRC))
+        acc.sample({"family": "objects"}, cap=1)
+    finally:
+        core.unload_source(ns)
+
+
 def work(chunk):
     import warnings
     warnings.simplefilter("ignore", RuntimeWarning)
     acc = core.Acc()
     for item in chunk:
-        if item["family"] == "callable":
+        if item["family"] == "objects":
+            check_callable_objects(acc)
+        elif item["family"] == "callable":
             check_callable(item, acc)
         else:
             check_class(item, acc)
@@ -664,7 +728,7 @@ def work(chunk):
 
 
 def run(tier, t0):
-    it = core.rotate(items(tier))
+    it = core.rotate(items(tier)) + [{"family": "objects"}]
     tot = core.merge(core.pmap(work, it))
     return core.finish(
         PROP, tier, tot, t0,
@@ -685,7 +749,10 @@ def run(tier, t0):
 def replay(path):
     data = json.load(open(path))["spec"]
     acc = core.Acc()
-    (check_callable if data["item"]["family"] == "callable" else check_class)(data["item"], acc)
+    if data.get("objects"):
+        check_callable_objects(acc)
+    else:
+        (check_callable if data["item"]["family"] == "callable" else check_class)(data["item"], acc)
     for v in acc.violations[:5]:
         print("VIOLATION property={} replay={}".format(PROP, path))
         print(" ", v.symptom, v.detail[:500])
